@@ -1,6 +1,7 @@
 import A2Verif.Lemmas.FsFatAttr
 import A2Verif.Lemmas.FsFatDel
 import A2Verif.Lemmas.FsFatExample
+import A2Verif.Lemmas.FsFatFormat
 import A2Verif.Props.C02
 import A2Verif.Props.C03
 import A2Verif.Props.C05
@@ -133,6 +134,43 @@ theorem attr_keeps_flat {d d' : Disk} {p : Bytes} {set clear : Option Nat} {res 
     · subst h; exact hd
     · exact hflat r (by rw [hv]; simp [h])
 
+/-! ## `format` -/
+
+/-- **`format` establishes the invariant** (C03, initial state of every history), for every BIOS parameter block that
+describes a FAT12 volume of 512-byte sectors inside the image (`FmtPre`: the facts of `Geo` other than the boot sector being
+on the image; the boot sector `boot` is the parameter of the model's `format`, its BPB is the disk's), a valid label or
+none, and a two-byte time and date: `format` followed by `get_img()` succeeds, the state reached satisfies `Inv`, its
+reading lists no file, and every usable cluster is free -/
+theorem format_establishes_inv {d : Disk} {boot vol : Bytes} {now : Stamp} (p : FmtPre d boot)
+    (hv : isLabelValid vol = true ∨ vol = []) (hs : StampOk now) :
+    ∃ d', runFlush (format vol boot now) d = (.ok (), d') ∧ Inv d' ∧ (volOf d').files = [] ∧
+      (volOf d').free = d.bpb.clusterCountUsable := by
+  obtain ⟨d', f, hrun, hlf, hb, g, c, hfree, hE, ht⟩ := format_run p hv hs
+  obtain ⟨i1, i2, i3⟩ := inv_of_empty hlf g c hfree hE ht
+  exact ⟨d', hrun, i1, i2, by rw [i3, hb]⟩
+
+/-- a boot sector carrying the 25 bytes of a BPB foundation at offset 11 (the other bytes do not matter to `FmtPre`) -/
+def bootOf (bpb : Bytes) : Bytes := List.replicate 11 0 ++ bpb ++ List.replicate (512 - 36) 0
+
+/-- `bpb.rs::SSDD_525_9` (5.25" 180K), `DSDD_525_9` (360K), `D35_720` (3.5" 720K): the kinds of the quick tier -/
+def bpbSSDD9 : Bytes := [0, 2, 1, 1, 0, 2, 64, 0, 104, 1, 252, 1, 0, 9, 0, 1, 0, 0, 0, 0, 0, 0, 0, 0, 0]
+def bpbDSDD9 : Bytes := [0, 2, 2, 1, 0, 2, 112, 0, 208, 2, 253, 2, 0, 9, 0, 2, 0, 0, 0, 0, 0, 0, 0, 0, 0]
+def bpb720 : Bytes := [0, 2, 2, 1, 0, 2, 112, 0, 160, 5, 249, 3, 0, 9, 0, 2, 0, 0, 0, 0, 0, 0, 0, 0, 0]
+def verif : Bytes := [86, 69, 82, 73, 70]
+
+/-- non-vacuity: the three volume kinds of the quick tier, formatted with the label `VERIF` as the harness does, and the
+24-sector example volume, meet the hypotheses of `format_establishes_inv` -/
+example : FmtPre (blankDisk (bootOf bpbSSDD9) 360) (bootOf bpbSSDD9) ∧ FmtPre (blankDisk (bootOf bpbDSDD9) 720) (bootOf bpbDSDD9) ∧
+    FmtPre (blankDisk (bootOf bpb720) 1440) (bootOf bpb720) ∧ FmtPre (blankDisk exBoot 24) exBoot ∧
+    isLabelValid verif = true ∧ StampOk exStamp :=
+  ⟨fmtPre_blank (by decide +kernel) (by decide +kernel), fmtPre_blank (by decide +kernel) (by decide +kernel),
+    fmtPre_blank (by decide +kernel) (by decide +kernel), fmtPre_blank (by decide +kernel) (by decide +kernel), by decide +kernel, ⟨rfl, rfl⟩⟩
+
+/-- the clusters `format` leaves free on these kinds: 339 of the 353 the data area of the 180K kind holds (its one-sector
+FAT describes no more), 354, 713 -/
+example : (Bpb.ofBoot (bootOf bpbSSDD9)).clusterCountUsable = 339 ∧ (Bpb.ofBoot (bootOf bpbDSDD9)).clusterCountUsable = 354 ∧
+    (Bpb.ofBoot (bootOf bpb720)).clusterCountUsable = 713 := by decide +kernel
+
 /-! ## histories of attribute operations -/
 
 inductive Op where
@@ -251,9 +289,9 @@ def exName : Bytes := [65, 46, 66]
 def exMissing : Bytes := [90, 90]
 
 theorem exName_arg : RootArg exName :=
-  { ne := by decide, noSlash := by decide, noStar := by decide, noQ := by decide, len := by decide, up := by decide }
+  { ne := by decide, noSlash := by decide, noStar := by decide, noQ := by decide, len := by decide }
 theorem exMissing_arg : RootArg exMissing :=
-  { ne := by decide, noSlash := by decide, noStar := by decide, noQ := by decide, len := by decide, up := by decide }
+  { ne := by decide, noSlash := by decide, noStar := by decide, noQ := by decide, len := by decide }
 
 def exOps : List Op := [.lock exName, .unlock exMissing, .delete exName, .unlock exName, .delete exName, .delete exName]
 
